@@ -303,8 +303,8 @@ pub fn run_files(args: &[String]) {
     let files = real::list_proofs();
     let mut jobs: Vec<(usize, String, u64)> = Vec::new();
     let kinds = ["none", "value:commitment", "value:oods", "value:leaf", "value:auth", "value:fri_leaf", "value:memory", "swap:leaves", "swap:auth", "remove:leaf", "remove:auth", "remove:commitment",
-                 "remove:nonce", "dup:leaf", "dup:commitment", "segment:unknown", "segment:remove", "hex:memory", "hex:annotation", "hex:in-list", "pow_bits:255", "pow_bits:256", "pow_bits:300",
-                 "nonce:0", "nonce:max64", "nonce:2^64", "steps:empty", "steps:huge", "n_steps:odd", "n_steps:2^31", "last_bound:100", "page:1", "rc", "nvf", "dyn:value", "dyn:remove", "layout:unknown"];
+                 "remove:nonce", "dup:leaf", "dup:commitment", "segment:unknown", "segment:remove", "hex:memory", "hex:memory:+", "hex:memory:0x_", "hex:memory:0xg", "hex:memory:empty", "hex:memory:0x", "hex:annotation", "hex:in-list", "pow_bits:255", "pow_bits:256", "pow_bits:300",
+                 "nonce:0", "nonce:max64", "nonce:2^64", "steps:empty", "steps:huge", "n_steps:odd", "n_steps:2^31", "last_bound:100", "page:1", "page:first", "page:last-listed-first", "memory:rotate", "memory:swap01", "rc", "nvf", "dyn:value", "dyn:remove", "layout:unknown"];
     for (fi, _) in files.iter().enumerate() { for k in kinds { for r in 0..(if k == "none" { 1 } else { per }) { jobs.push((fi, k.to_string(), r)); } } }
     let res = par_map(&jobs, n_threads(), |_, (fi, kind, r)| {
         let f = &files[*fi];
@@ -338,6 +338,8 @@ pub fn run_files(args: &[String]) {
             "segment:unknown" => { v["public_input"]["memory_segments"]["foo_builtin"] = json!({"begin_addr": 5, "stop_ptr": 5}); }
             "segment:remove" => { v["public_input"]["memory_segments"].as_object_mut().unwrap().remove("output"); }
             "hex:memory" => { v["public_input"]["public_memory"][1]["value"] = json!("0xzz12"); }
+            k if k.starts_with("hex:memory:") => { let n = v["public_input"]["public_memory"].as_array().unwrap().len(); let i = rng.below(n as u64) as usize;
+                v["public_input"]["public_memory"][i]["value"] = json!(match k { "hex:memory:+" => "+90", "hex:memory:0x_" => "0x_90", "hex:memory:0xg" => "0xg1", "hex:memory:space" => "0x90 ", "hex:memory:empty" => "", _ => "0x" }); }
             "hex:annotation" => { if let Some(i) = pick(&leaves, &mut rng) { let l = ann[i].replace("Field Element(0x", "Field Element(0xzz"); set_ann(&mut v, i, l); } }
             "hex:in-list" => { if let Some(i) = pick(&find("OODS values: : Field Elements"), &mut rng) { let l = ann[i].replacen(", 0x", ", 0xq", 1); set_ann(&mut v, i, l); } }
             "pow_bits:255" => v["proof_parameters"]["stark"]["fri"]["proof_of_work_bits"] = json!(255),
@@ -352,6 +354,11 @@ pub fn run_files(args: &[String]) {
             "n_steps:2^31" => v["public_input"]["n_steps"] = json!(1u64 << 31),
             "last_bound:100" => v["proof_parameters"]["stark"]["fri"]["last_layer_degree_bound"] = json!(100),
             "page:1" => { let n = v["public_input"]["public_memory"].as_array().unwrap().len(); v["public_input"]["public_memory"][n - 1]["page"] = json!(1); }
+            // the padding cell is the first entry of the list as written, whatever page it is on and wherever the main page starts
+            "page:first" => { v["public_input"]["public_memory"][0]["page"] = json!(1); }
+            "page:last-listed-first" => { let m = v["public_input"]["public_memory"].as_array_mut().unwrap(); let mut e = m.pop().unwrap(); e["page"] = json!(1); m.insert(0, e); }
+            "memory:rotate" => { let m = v["public_input"]["public_memory"].as_array_mut().unwrap(); let e = m.pop().unwrap(); m.insert(0, e); }
+            "memory:swap01" => { v["public_input"]["public_memory"].as_array_mut().unwrap().swap(0, 1); }
             "rc" => { v["public_input"]["rc_min"] = json!(7); v["public_input"]["rc_max"] = json!(65535); }
             "nvf" => v["proof_parameters"]["n_verifier_friendly_commitment_layers"] = json!(17),
             "dyn:value" => { if let Some(o) = v["public_input"]["dynamic_params"].as_object_mut() { let k = o.keys().nth(rng.below(o.len() as u64) as usize).unwrap().clone(); o[&k] = json!(9); } else { applicable = false; } }
